@@ -196,6 +196,10 @@ def judge_collection(case):
                     res[name] = (ids, str(mc))
             except Exception as e:
                 res[name] = (f'EXC {type(e).__name__}: {e}', '')
+    if case.get('shared'):
+        # two different documents share a messageID: their mutual order is whatever the source hands
+        # over, so only WHICH messages each constructor holds is compared, not the merged text
+        res = {k: (v[0], '') for k, v in res.items()}
     if len({(str(v[0]), v[1]) for v in res.values()}) > 1:
         fails.append(Failure(PROP, 'C18|constructors-disagree',
                              f'from_strings / from_files / from_s3 over the same contents differ: '
@@ -336,13 +340,22 @@ def shard(args):
         @st.composite
         def colls(draw):
             c = draw(colgen.collection(min_msgs=1, max_msgs=6, faults='some', rich=True))
-            return {'docs': c['docs'], 'page_size': draw(st.integers(1, 4)),
+            shared = False
+            if len(c['docs']) >= 3 and draw(st.integers(0, 3)) == 0:
+                from xml.etree import ElementTree as ET
+                i, j = draw(st.lists(st.integers(1, len(c['docs']) - 1), min_size=2, max_size=2, unique=True))
+                r = ET.fromstring(c['docs'][i])
+                r.find('messageID').text = ET.fromstring(c['docs'][j]).findtext('messageID')
+                c['docs'][i] = ET.tostring(r, encoding='unicode')
+                shared = True
+            return {'docs': c['docs'], 'page_size': draw(st.integers(1, 4)), 'shared': shared,
                     'order': list(draw(gen.permutation(range(len(c['docs']))))) if draw(st.booleans()) else None,
                     'key_style': draw(st.sampled_from(KEY_STYLES)),
                     'file_style': draw(st.sampled_from(['c{n:03d}.mos.xml'] * 3 + ['c[{n}].mos.xml', 'c?{n}.mos.xml', 'c*{n}.mos.xml']))}
 
         def three(case):
-            col.record(case, True, ['constructors-agree'] + (['s3-keys-with-+-%-space'] if case['key_style'] != KEY_STYLES[0] else []),
+            col.record(case, True, ['constructors-agree'] + (['s3-keys-with-+-%-space'] if case['key_style'] != KEY_STYLES[0] else [])
+                       + (['two-documents-sharing-a-messageID'] if case.get('shared') else []),
                        judge_collection(case), key=h64(*case['docs']))
         drive.run_given(colls(), three, max(10, n // 5), seed + 2)
     finally:
